@@ -162,7 +162,7 @@ Lemma rle_decode_loop_runs rs : forall fuel tl maxCount total,
   runs_wf rs -> (length (enc_runs rs) < fuel)%nat -> total <= maxCount ->
   maxCount <= total + runs_total rs -> total + runs_total rs < 18446744073709551616 ->
   rle_decode_loop fuel (enc_runs rs ++ tl) maxCount total
-  = ROk (firstn (N.to_nat (maxCount - total)) (expand_runs rs)).
+  = RleOk (firstn (N.to_nat (maxCount - total)) (expand_runs rs)).
 Proof.
   induction rs as [|r rs IH]; intros fuel tl maxCount total Hwf Hf Hle Hge Hno.
   - cbn [runs_total fold_right] in Hge. destruct fuel as [|f]; [cbn in Hf; lia|].
@@ -180,30 +180,20 @@ Proof.
     rewrite decode_run_bytes by (assumption || (unfold u64_ok; lia)).
     cbv beta iota.
     replace (fst r =? 0) with false by lia.
-    replace (add64 total (fst r)) with (total + fst r)
-      by (unfold add64; rewrite N.mod_small; lia).
     rewrite expand_runs_cons.
-    destruct (maxCount <? total + fst r) eqn:E1.
+    destruct (maxCount - total <? fst r) eqn:E1.
     + (* the capacity ends inside this run *)
-      rewrite N.ltb_irrefl.
-      rewrite firstn_repeat_app by lia.
-      destruct ((maxCount <? add64 (total + (maxCount - total)) (fst r)) && (maxCount - total <? fst r)) eqn:E2;
-        [reflexivity|].
-      rewrite skipn_run_bytes.
-      destruct f as [|f]; [lia|]. cbn [rle_decode_loop].
-      replace (total + (maxCount - total) <? maxCount) with false by lia.
-      cbn [rres_app]. rewrite app_nil_r. reflexivity.
+      rewrite E1. rewrite firstn_repeat_app by lia. reflexivity.
     + (* the whole run fits *)
-      replace (maxCount - total <? fst r) with false by lia.
-      rewrite N.ltb_irrefl, andb_false_r.
+      rewrite N.ltb_irrefl.
       rewrite skipn_run_bytes, IH by (assumption || lia).
-      cbn [rres_app]. f_equal.
+      cbn [rle_rres_app]. f_equal.
       rewrite firstn_repeat_app_ge by lia. f_equal. f_equal. lia.
 Qed.
 
 Theorem rle_decode_roundtrip xs tl cap :
   all_u64 xs -> N.of_nat (length xs) < 18446744073709551616 -> cap <= N.of_nat (length xs) ->
-  rle_decode (fst (rle_encode xs) ++ tl) cap = ROk (firstn (N.to_nat cap) xs).
+  rle_decode (fst (rle_encode xs) ++ tl) cap = RleOk (firstn (N.to_nat cap) xs).
 Proof.
   intros Hxs Hlen Hcap. destruct (rle_encode_is_spec xs) as (E & _). rewrite E.
   unfold rle_decode. rewrite rle_decode_loop_runs.
@@ -220,7 +210,7 @@ Lemma rle_decode_hdr_loop_runs rs : forall fuel tl totalCount maxCount decoded,
   runs_wf rs -> (length (enc_runs rs) < fuel)%nat ->
   decoded + runs_total rs = totalCount -> totalCount <= maxCount ->
   totalCount < 18446744073709551616 ->
-  rle_decode_hdr_loop fuel (enc_runs rs ++ tl) totalCount maxCount decoded = ROk (expand_runs rs).
+  rle_decode_hdr_loop fuel (enc_runs rs ++ tl) totalCount maxCount decoded = RleOk (expand_runs rs).
 Proof.
   induction rs as [|r rs IH]; intros fuel tl totalCount maxCount decoded Hwf Hf Hsum Hle Hno.
   - cbn [runs_total fold_right] in Hsum. destruct fuel as [|f]; [cbn in Hf; lia|].
@@ -245,7 +235,7 @@ Qed.
 Theorem rle_decode_with_header_roundtrip xs tl cap :
   all_u64 xs -> N.of_nat (length xs) < 18446744073709551616 ->
   rle_decode_with_header (fst (rle_encode_with_header xs) ++ tl) cap
-  = if cap <? N.of_nat (length xs) then ROk [] else ROk xs.
+  = if cap <? N.of_nat (length xs) then RleOk [] else RleOk xs.
 Proof.
   intros Hxs Hlen. unfold rle_decode_with_header, rle_encode_with_header. cbn [fst].
   rewrite <- app_assoc. rewrite tagged_get64_put by exact Hlen. cbn [fst snd].
@@ -319,9 +309,9 @@ Proof.
   rewrite <- app_assoc, tagged_get64_put by exact H. reflexivity.
 Qed.
 
-Lemma tagged_avail_ge avail x : tagged_len x <= avail -> (Z.of_N (tagged_len x) <= tagged_avail avail)%Z.
+Lemma rle_tagged_avail_ge avail x : tagged_len x <= avail -> (Z.of_N (tagged_len x) <= rle_tagged_avail avail)%Z.
 Proof.
-  intro H. unfold tagged_avail. pose proof (tagged_len_le9 x).
+  intro H. unfold rle_tagged_avail. pose proof (tagged_len_le9 x).
   destruct (9 <? avail) eqn:E; lia.
 Qed.
 
@@ -343,12 +333,12 @@ Proof.
     set (avail := N.of_nat (length (run_bytes r) + length (enc_runs rs))).
     replace (0 <? avail) with true by lia.
     unfold run_bytes. rewrite <- !app_assoc.
-    rewrite tagged_roundtrip by (try exact Hu1; apply tagged_avail_ge; lia).
+    rewrite tagged_roundtrip by (try exact Hu1; apply rle_tagged_avail_ge; lia).
     cbn [fst snd].
     replace (tagged_len (fst r) =? 0) with false by lia.
     replace (fst r =? 0) with false by lia. cbn [orb].
     rewrite skipn_put.
-    rewrite tagged_roundtrip by (try exact Hv; apply tagged_avail_ge; lia).
+    rewrite tagged_roundtrip by (try exact Hv; apply rle_tagged_avail_ge; lia).
     cbn [fst snd].
     replace (tagged_len (snd r) =? 0) with false by lia.
     rewrite skipn_put.
@@ -480,18 +470,18 @@ Proof.
 Qed.
 
 (* ---------------------------------------------------------------- capacity, any input *)
-Lemma rres_stores_app w r : rres_stores (rres_app w r) = w ++ rres_stores r.
+Lemma rle_stores_app w r : rle_stores (rle_rres_app w r) = w ++ rle_stores r.
 Proof. destruct r; reflexivity. Qed.
 
 Lemma rle_decode_hdr_loop_cap fuel : forall z totalCount maxCount decoded, decoded <= maxCount ->
-  N.of_nat (length (rres_stores (rle_decode_hdr_loop fuel z totalCount maxCount decoded)))
+  N.of_nat (length (rle_stores (rle_decode_hdr_loop fuel z totalCount maxCount decoded)))
   <= maxCount - decoded.
 Proof.
   induction fuel as [|f IH]; intros z totalCount maxCount decoded H; [cbn; lia|].
   cbn [rle_decode_hdr_loop].
   destruct ((decoded <? totalCount) && (decoded <? maxCount)) eqn:E; [|cbn; lia].
   destruct (rle_decode_run z) as [[consumed runLen] value]. cbv beta iota.
-  rewrite rres_stores_app, app_length, repeat_length.
+  rewrite rle_stores_app, app_length, repeat_length.
   set (n := if runLen <? maxCount - decoded then runLen else maxCount - decoded).
   assert (Hn : n <= maxCount - decoded) by (subst n; destruct (runLen <? maxCount - decoded) eqn:E2; lia).
   specialize (IH (skipn (N.to_nat consumed) z) totalCount maxCount (decoded + n)). lia.
@@ -499,7 +489,7 @@ Qed.
 
 (* on ANY bytes the header decoder stores at indices below the capacity only *)
 Theorem rle_decode_with_header_cap z cap :
-  N.of_nat (length (rres_stores (rle_decode_with_header z cap))) <= cap.
+  N.of_nat (length (rle_stores (rle_decode_with_header z cap))) <= cap.
 Proof.
   unfold rle_decode_with_header. destruct (cap <? snd (tagged_get64 z)); [cbn; lia|].
   pose proof (rle_decode_hdr_loop_cap (S (length z)) (skipn (N.to_nat (fst (tagged_get64 z))) z)
@@ -507,31 +497,29 @@ Proof.
 Qed.
 
 Lemma rle_decode_loop_cap fuel : forall z maxCount total, total <= maxCount ->
-  N.of_nat (length (rres_stores (rle_decode_loop fuel z maxCount total))) <= maxCount - total.
+  N.of_nat (length (rle_stores (rle_decode_loop fuel z maxCount total))) <= maxCount - total.
 Proof.
   induction fuel as [|f IH]; intros z maxCount total H; [cbn; lia|].
   cbn [rle_decode_loop]. destruct (total <? maxCount) eqn:E; [|cbn; lia].
   destruct (rle_decode_run z) as [[consumed runLen] value]. cbv beta iota.
   destruct (runLen =? 0); [cbn; lia|].
-  set (toWrite := if maxCount <? add64 total runLen then maxCount - total else runLen).
-  destruct (maxCount - total <? toWrite) eqn:E2.
-  - cbn [rres_stores]. rewrite repeat_length. lia.
-  - destruct ((maxCount <? add64 (total + toWrite) runLen) && (toWrite <? runLen)).
-    + cbn [rres_stores]. rewrite repeat_length. lia.
-    + rewrite rres_stores_app, app_length, repeat_length.
-      specialize (IH (skipn (N.to_nat consumed) z) maxCount (total + toWrite)). lia.
+  set (toWrite := if maxCount - total <? runLen then maxCount - total else runLen).
+  assert (Ht : toWrite <= maxCount - total)
+    by (subst toWrite; destruct (maxCount - total <? runLen) eqn:E2; lia).
+  destruct (toWrite <? runLen).
+  - cbn [rle_stores]. rewrite repeat_length. lia.
+  - rewrite rle_stores_app, app_length, repeat_length.
+    specialize (IH (skipn (N.to_nat consumed) z) maxCount (total + toWrite)). lia.
 Qed.
 
-(* on ANY bytes the stores the model attributes to varintRLEDecode stay below
-   the capacity; what a hostile stream can provoke is the ROob outcome (the C
-   code would store further) — excluded for encoder output by
-   rle_decode_roundtrip *)
-Theorem rle_decode_cap z cap : N.of_nat (length (rres_stores (rle_decode z cap))) <= cap.
+(* on ANY bytes varintRLEDecode stores below the capacity only (after the fix
+   of the hostile-stream overflow there is no other outcome) *)
+Theorem rle_decode_cap z cap : N.of_nat (length (rle_stores (rle_decode z cap))) <= cap.
 Proof. pose proof (rle_decode_loop_cap (S (length z)) z cap 0). unfold rle_decode. lia. Qed.
 
 (* ---------------------------------------------------------------- C14: the run counter *)
-Lemma tagged_avail_le avail : (tagged_avail avail <= Z.of_nat (N.to_nat avail))%Z.
-Proof. unfold tagged_avail. destruct (9 <? avail) eqn:E; lia. Qed.
+Lemma rle_tagged_avail_le avail : (rle_tagged_avail avail <= Z.of_nat (N.to_nat avail))%Z.
+Proof. unfold rle_tagged_avail. destruct (9 <? avail) eqn:E; lia. Qed.
 
 Lemma rle_run_count_loop_ni fuel : forall z z' avail runs,
   firstn (N.to_nat avail) z = firstn (N.to_nat avail) z' ->
@@ -539,36 +527,36 @@ Lemma rle_run_count_loop_ni fuel : forall z z' avail runs,
 Proof.
   induction fuel as [|f IH]; intros z z' avail runs H; [reflexivity|].
   cbn [rle_run_count_loop]. destruct (0 <? avail) eqn:E0; [|reflexivity].
-  rewrite (tagged_get_firstn z z' _ _ (tagged_avail_le avail) H).
-  set (r1 := tagged_get z' (tagged_avail avail)).
+  rewrite (tagged_get_firstn z z' _ _ (rle_tagged_avail_le avail) H).
+  set (r1 := tagged_get z' (rle_tagged_avail avail)).
   destruct ((fst r1 =? 0) || (snd r1 =? 0)); [reflexivity|].
   assert (H1 : firstn (N.to_nat (avail - fst r1)) (skipn (N.to_nat (fst r1)) z)
                = firstn (N.to_nat (avail - fst r1)) (skipn (N.to_nat (fst r1)) z')).
   { replace (N.to_nat (avail - fst r1)) with (N.to_nat avail - N.to_nat (fst r1))%nat by lia.
     apply firstn_skipn_eq. exact H. }
-  rewrite (tagged_get_firstn _ _ _ _ (tagged_avail_le (avail - fst r1)) H1).
-  set (r2 := tagged_get (skipn (N.to_nat (fst r1)) z') (tagged_avail (avail - fst r1))).
+  rewrite (tagged_get_firstn _ _ _ _ (rle_tagged_avail_le (avail - fst r1)) H1).
+  set (r2 := tagged_get (skipn (N.to_nat (fst r1)) z') (rle_tagged_avail (avail - fst r1))).
   destruct (fst r2 =? 0); [reflexivity|].
   apply IH.
   replace (N.to_nat (avail - fst r1 - fst r2)) with (N.to_nat (avail - fst r1) - N.to_nat (fst r2))%nat by lia.
   apply firstn_skipn_eq. exact H1.
 Qed.
 
-Lemma tagged_avail_to_N avail : Z.to_N (Z.max 0 (tagged_avail avail)) <= avail.
-Proof. unfold tagged_avail. destruct (9 <? avail) eqn:E; lia. Qed.
+Lemma rle_tagged_avail_to_N avail : Z.to_N (Z.max 0 (rle_tagged_avail avail)) <= avail.
+Proof. unfold rle_tagged_avail. destruct (9 <? avail) eqn:E; lia. Qed.
 
 Lemma rle_run_count_loop_total fuel : forall z avail runs, (N.to_nat avail < fuel)%nat ->
   exists k, rle_run_count_loop fuel z avail runs = Some k /\ runs <= k /\ 2 * (k - runs) <= avail.
 Proof.
   induction fuel as [|f IH]; intros z avail runs H; [lia|].
   cbn [rle_run_count_loop]. destruct (0 <? avail) eqn:E0; [|exists runs; split; [reflexivity|lia]].
-  pose proof (tagged_get_width_le z (tagged_avail avail)) as W1.
-  pose proof (tagged_avail_to_N avail) as A1.
-  set (r1 := tagged_get z (tagged_avail avail)) in *.
+  pose proof (tagged_get_width_le z (rle_tagged_avail avail)) as W1.
+  pose proof (rle_tagged_avail_to_N avail) as A1.
+  set (r1 := tagged_get z (rle_tagged_avail avail)) in *.
   destruct ((fst r1 =? 0) || (snd r1 =? 0)) eqn:E1; [exists runs; split; [reflexivity|lia]|].
-  pose proof (tagged_get_width_le (skipn (N.to_nat (fst r1)) z) (tagged_avail (avail - fst r1))) as W2.
-  pose proof (tagged_avail_to_N (avail - fst r1)) as A2.
-  set (r2 := tagged_get (skipn (N.to_nat (fst r1)) z) (tagged_avail (avail - fst r1))) in *.
+  pose proof (tagged_get_width_le (skipn (N.to_nat (fst r1)) z) (rle_tagged_avail (avail - fst r1))) as W2.
+  pose proof (rle_tagged_avail_to_N (avail - fst r1)) as A2.
+  set (r2 := tagged_get (skipn (N.to_nat (fst r1)) z) (rle_tagged_avail (avail - fst r1))) in *.
   destruct (fst r2 =? 0) eqn:E2; [exists runs; split; [reflexivity|lia]|].
   destruct (IH (skipn (N.to_nat (fst r2)) (skipn (N.to_nat (fst r1)) z)) (avail - fst r1 - fst r2) (runs + 1))
     as (k & Hk & Hle & Hb); [lia|].
@@ -593,7 +581,7 @@ Qed.
 (* ---------------------------------------------------------------- corollaries *)
 Theorem rle_roundtrip_full xs tl :
   all_u64 xs -> N.of_nat (length xs) < 18446744073709551616 ->
-  rle_decode (fst (rle_encode xs) ++ tl) (N.of_nat (length xs)) = ROk xs.
+  rle_decode (fst (rle_encode xs) ++ tl) (N.of_nat (length xs)) = RleOk xs.
 Proof.
   intros H1 H2. rewrite rle_decode_roundtrip by (assumption || lia).
   rewrite Nat2N.id, firstn_all. reflexivity.
@@ -601,7 +589,7 @@ Qed.
 
 Theorem rle_header_roundtrip_full xs tl :
   all_u64 xs -> N.of_nat (length xs) < 18446744073709551616 ->
-  rle_decode_with_header (fst (rle_encode_with_header xs) ++ tl) (N.of_nat (length xs)) = ROk xs.
+  rle_decode_with_header (fst (rle_encode_with_header xs) ++ tl) (N.of_nat (length xs)) = RleOk xs.
 Proof.
   intros H1 H2. rewrite rle_decode_with_header_roundtrip by assumption.
   rewrite N.ltb_irrefl. reflexivity.
